@@ -78,10 +78,14 @@ type Bank struct {
 	rej    []*model.StructDef
 	reqs   []*model.StructDef // valid types with required fields somewhere
 	unk    []*model.StructDef // valid types with the unknown-fields holder
+	unkNC  []*model.StructDef // ... that also have a nocopy field
 	byst   []*model.StructDef
 	recur  []*model.StructDef
 	profID uint64
 }
+
+// SysRejected is the first id of the systematic part of C13's bank.
+const SysRejected = uint64(1) << 32
 
 // BankSize is the number of distinct operations per profile and corpus.
 var BankSize = map[string]uint64{"C04": 1500, "C05": 3000, "C06": 1500, "C07": 2500, "C08": 2500, "C09": 3000, "C13": 1500, "C16": 1200, "C17": 1500}
@@ -102,6 +106,12 @@ func NewBank(prof string, c *model.Corpus) *Bank {
 		}
 		if s.Unknown {
 			b.unk = append(b.unk, s)
+			for _, f := range s.Fields {
+				if f.NoCopy {
+					b.unkNC = append(b.unkNC, s)
+					break
+				}
+			}
 		}
 		if len(s.Name) > 2 && s.Name[:2] == "By" {
 			b.byst = append(b.byst, s)
@@ -148,6 +158,78 @@ var budgets = []int{40, 120, 120, 300, 300, 600, 600, 1500, 5000, 20000, 70000, 
 
 func (b *Bank) pickValid(r *model.Rng) *model.StructDef { return b.valid[r.Intn(len(b.valid))] }
 
+// Focus ids: FocusBase + (index of a valid definition)*FocusVariants + variant. Everything about such an operation is
+// drawn from its id like for any other, except the definition it works on, which the id names. A history can thereby
+// aim several different operations (different messages, values, faults, argument forms) at the same few definitions:
+// what one call leaves behind in state that is kept per definition (descriptor, per-type pools and caches) meets the
+// next call on it. Ids below FocusBase choose their definition at random.
+const (
+	FocusBase     = uint64(1) << 24
+	FocusVariants = 10
+)
+
+func isFocus(id uint64) bool { return id >= FocusBase && id < SysRejected }
+
+// pick returns the definition operation id works on.
+func (b *Bank) pick(id uint64, r *model.Rng) *model.StructDef {
+	s := b.pickValid(r) // always drawn: the rest of the operation's stream does not depend on the kind of id
+	if isFocus(id) {
+		return b.valid[int((id-FocusBase)/FocusVariants)%len(b.valid)]
+	}
+	return s
+}
+
+// designed: one of the hand-written shapes of the corpus (the generated ones are called M<n> / R<n>).
+func designed(s *model.StructDef) bool {
+	n := s.Name
+	if len(n) >= 2 && (n[0] == 'M' || n[0] == 'R') && n[1] >= '0' && n[1] <= '9' {
+		return false
+	}
+	return true
+}
+
+// focusPool lists (as indexes into b.valid) the definitions histories may focus on. Profiles that compare with
+// fresh-process baselines share one small pool per check run in the quick tier (limited > 0), so that the baselines of
+// the focused operations are shared by all histories; otherwise every definition qualifies.
+func (b *Bank) focusPool(seed uint64, limited bool) []int {
+	var all, des, gen []int
+	for i, s := range b.valid {
+		if b.Prof == "C09" && !hasRequired(b.C, s, map[string]bool{}) {
+			continue
+		}
+		if b.Prof == "C13" && !(len(s.Name) > 2 && s.Name[:2] == "By") {
+			continue
+		}
+		all = append(all, i)
+		if designed(s) {
+			des = append(des, i)
+		} else {
+			gen = append(gen, i)
+		}
+	}
+	switch b.Prof {
+	case "C07", "C13", "C17":
+	default:
+		limited = false
+	}
+	if !limited || len(all) <= 24 {
+		return all
+	}
+	r := model.NewRng(model.Mix(seed, b.C.Seed, b.profID, 0xf0c05))
+	var out []int
+	take := func(from []int, n int) {
+		for k := 0; k < n && len(from) > 0; k++ {
+			j := r.Intn(len(from))
+			out = append(out, from[j])
+			from[j] = from[len(from)-1]
+			from = from[:len(from)-1]
+		}
+	}
+	take(des, len(des)) // every hand-written shape
+	take(gen, 8)
+	return out
+}
+
 // Op derives operation id of this bank.
 func (b *Bank) Op(id uint64) (op OpSpec) {
 	r := model.NewRng(model.Mix(b.C.Seed, b.profID, id))
@@ -158,22 +240,25 @@ func (b *Bank) Op(id uint64) (op OpSpec) {
 	switch b.Prof {
 	case "C04":
 		// the deciding operation is the size/encode plan; the rest is history context
+		if isFocus(id) && roll >= 90 {
+			roll %= 90
+		}
 		switch {
 		case roll < 70:
-			op.Kind, op.Type = "encplan", b.pickValid(r).Name
+			op.Kind, op.Type = "encplan", b.pick(id, r).Name
 			if op.Budget > 5000 {
 				op.Budget = 5000
 			}
 		case roll < 80:
-			op.Kind, op.Type, op.Fault = "dec", b.pickValid(r).Name, pickFault(r)
+			op.Kind, op.Type, op.Fault = "dec", b.pick(id, r).Name, pickFault(r)
 		case roll < 90:
-			op.Kind, op.Type = "size", b.pickValid(r).Name
+			op.Kind, op.Type = "size", b.pick(id, r).Name
 			op.ByValue = r.Chance(1, 2)
 		default:
 			op.Kind, op.Type = "enc", b.rej[r.Intn(len(b.rej))].Name
 		}
 	case "C05":
-		op.Type = b.pickValid(r).Name
+		op.Type = b.pick(id, r).Name
 		switch {
 		case roll < 35:
 			op.Kind = "decenum" // every prefix and every single-byte corruption of one message
@@ -192,7 +277,7 @@ func (b *Bank) Op(id uint64) (op OpSpec) {
 			op.Kind, op.Fault = "dec", "none" // healthy traffic in between
 		}
 	case "C06":
-		op.Kind, op.Type, op.Fault = "dec", b.pickValid(r).Name, "none"
+		op.Kind, op.Type, op.Fault = "dec", b.pick(id, r).Name, "none"
 		op.Prefill = r.Chance(1, 5)
 		switch {
 		case roll < 10:
@@ -204,35 +289,40 @@ func (b *Bank) Op(id uint64) (op OpSpec) {
 	case "C07", "C08", "C17":
 		defer func() {
 			// a quarter of the codec operations go to types with the unknown-fields holder, written by a foreign writer
-			if (op.Kind == "dec" || op.Kind == "decseq" || op.Kind == "enc" || op.Kind == "size") && len(b.unk) > 0 && id%4 == 1 {
+			if (op.Kind == "dec" || op.Kind == "decseq" || op.Kind == "enc" || op.Kind == "size") && len(b.unk) > 0 && id%4 == 1 && !isFocus(id) {
 				if sd := b.C.Get(op.Type); sd != nil && !sd.Rejected() {
 					op.Type, op.Foreign = b.unk[int(id/4)%len(b.unk)].Name, true
 				}
 			}
 		}()
+		if isFocus(id) {
+			// focused operations are codec calls on the named definition; the variant number fixes the kind, so that
+			// the few variants of a definition always include several different healthy messages
+			roll = []int{45, 50, 20, 80, 55, 5, 60, 68, 63, 30}[int((id-FocusBase)%FocusVariants)%10]
+		}
 		switch {
 		case roll < 12:
-			op.Kind, op.Type = "size", b.pickValid(r).Name
+			op.Kind, op.Type = "size", b.pick(id, r).Name
 			op.ByValue = r.Chance(1, 2)
 		case roll < 40:
-			op.Kind, op.Type = "enc", b.pickValid(r).Name
+			op.Kind, op.Type = "enc", b.pick(id, r).Name
 			op.ByValue = r.Chance(1, 3)
 			op.Buf = "exact"
 			if r.Chance(1, 5) {
 				op.Buf, op.BufK = "short", 1+r.Intn(8)
 			}
 		case roll < 64:
-			op.Kind, op.Type, op.Fault = "dec", b.pickValid(r).Name, "none"
+			op.Kind, op.Type, op.Fault = "dec", b.pick(id, r).Name, "none"
 			op.Prefill = r.Chance(1, 4)
 		case roll < 72:
 			// several messages, some damaged, decoded one after the other into the same destination
-			op.Kind, op.Type, op.Fault = "decseq", b.pickValid(r).Name, pickFault(r)
+			op.Kind, op.Type, op.Fault = "decseq", b.pick(id, r).Name, pickFault(r)
 			op.Omit = 2 + r.Intn(3) // number of messages
 			if op.Budget > 1500 {
 				op.Budget = 1500
 			}
 		case roll < 88:
-			op.Kind, op.Type, op.Fault = "dec", b.pickValid(r).Name, pickFault(r)
+			op.Kind, op.Type, op.Fault = "dec", b.pick(id, r).Name, pickFault(r)
 			op.Prefill = r.Chance(1, 4)
 		case roll < 94 && (b.Prof != "C08" || roll < 91):
 			// calls on rejected definitions are part of every history (in schedule worlds: a failing registration
@@ -245,7 +335,7 @@ func (b *Bank) Op(id uint64) (op OpSpec) {
 			if b.Prof == "C17" && roll >= 98 {
 				// arguments the codec refuses: a legacy control must not turn them into accepted ones
 				op.Kind, op.Arg = "arg", []string{"ptrptr", "ptrptr", "nil-typed-ptr", "struct-value", "nil", "ptr-int"}[r.Intn(6)]
-				op.Type = b.pickValid(r).Name
+				op.Type = b.pick(id, r).Name
 				op.Legacy = []string{"size", "enc", "dec"}[r.Intn(3)]
 				if op.Arg == "struct-value" {
 					op.Legacy = "dec"
@@ -254,12 +344,15 @@ func (b *Bank) Op(id uint64) (op OpSpec) {
 				op.Kind, op.Legacy = "legacy", legacyCalls[r.Intn(len(legacyCalls))]
 				op.Type = b.C.Structs[r.Intn(len(b.C.Structs))].Name
 			} else {
-				op.Kind, op.Type = "enc", b.pickValid(r).Name
+				op.Kind, op.Type = "enc", b.pick(id, r).Name
 				op.Buf = "generous"
 			}
 		}
 	case "C09":
 		s := b.reqs[r.Intn(len(b.reqs))]
+		if isFocus(id) {
+			s = b.pick(id, r)
+		}
 		op.Type = s.Name
 		switch {
 		case roll < 75:
@@ -268,13 +361,29 @@ func (b *Bank) Op(id uint64) (op OpSpec) {
 			if r.Chance(3, 5) {
 				op.Omit = 1 + r.Intn(3)
 			}
+			// whether a required field was transmitted is a fact about the message, not about what the destination
+			// happens to hold: a third of the decodes go into a destination that already has every field set
+			op.Prefill = r.Chance(1, 3)
 		default:
 			op.Kind, op.Buf = "enc", "generous"
 			op.ByValue = r.Chance(1, 4)
 			op.Arg = []string{"value", "zero", "sparse"}[r.Intn(3)]
 		}
 	case "C13":
+		if isFocus(id) {
+			roll = 99
+		}
 		switch {
+		case id >= SysRejected:
+			// systematic part of the bank: every rejected definition through every entry point. No fresh-process
+			// baseline is needed for these (the verdict is known by construction), so the quick tier's bank prefix
+			// does not apply to them.
+			k := int((id - SysRejected) % uint64(3*len(b.rej)))
+			s := b.rej[k/3]
+			op.Type = s.Name
+			op.Kind = []string{"size", "enc", "dec"}[k%3]
+			op.ByValue = op.Kind != "dec" && r.Chance(1, 6)
+			op.Buf = "generous"
 		case roll < 60:
 			s := b.rej[r.Intn(len(b.rej))]
 			op.Type = s.Name
@@ -283,7 +392,7 @@ func (b *Bank) Op(id uint64) (op OpSpec) {
 			op.Buf = "generous"
 		case roll < 72:
 			op.Kind, op.Arg = "arg", argKinds[r.Intn(len(argKinds))]
-			op.Type = b.pickValid(r).Name
+			op.Type = b.pick(id, r).Name
 			if len(b.byst) > 0 && r.Chance(1, 2) {
 				op.Type = b.byst[r.Intn(len(b.byst))].Name // a type that the same histories also use validly
 			}
@@ -293,8 +402,8 @@ func (b *Bank) Op(id uint64) (op OpSpec) {
 			}
 		default:
 			// bystanders and ordinary valid types
-			s := b.pickValid(r)
-			if len(b.byst) > 0 && r.Chance(2, 3) {
+			s := b.pick(id, r)
+			if len(b.byst) > 0 && r.Chance(2, 3) && !isFocus(id) {
 				s = b.byst[r.Intn(len(b.byst))]
 			}
 			op.Type = s.Name
@@ -302,7 +411,7 @@ func (b *Bank) Op(id uint64) (op OpSpec) {
 			op.Buf, op.Fault = "exact", "none"
 		}
 	case "C16":
-		op.Type = b.pickValid(r).Name
+		op.Type = b.pick(id, r).Name
 		switch {
 		case roll < 35:
 			op.Kind, op.Buf = "enc", []string{"exact", "generous", "generous", "short", "shortspare", "shortspare"}[r.Intn(6)]
@@ -311,10 +420,25 @@ func (b *Bank) Op(id uint64) (op OpSpec) {
 		case roll < 50:
 			op.Kind = "size"
 			op.ByValue = r.Chance(1, 3)
-		case roll < 72:
+		case roll < 66:
 			op.Kind, op.Fault = "dec", "none"
 			if r.Chance(1, 4) {
 				op.Fault = pickFault(r)
+			}
+		case roll < 72:
+			// several messages from a foreign writer decoded one after the other into the same object, each from
+			// its own buffer: a later decode must not write into the buffer an earlier one arrived in either (what
+			// the object still references of it - nocopy views, or anything it wrongly kept)
+			op.Kind, op.Fault, op.Foreign = "decseq", "none", true
+			op.Omit = 2 + r.Intn(3)
+			if len(b.unk) > 0 && r.Chance(2, 3) && !isFocus(id) {
+				op.Type = b.unk[r.Intn(len(b.unk))].Name
+				if len(b.unkNC) > 0 && r.Chance(1, 2) {
+					op.Type = b.unkNC[r.Intn(len(b.unkNC))].Name
+				}
+			}
+			if op.Budget > 1500 {
+				op.Budget = 1500
 			}
 		case roll < 84:
 			// encode what was decoded from a foreign writer (bool bytes other than 0/1 kept as they came, unknown
@@ -404,6 +528,13 @@ func Derive(prof string, c *model.Corpus, seed uint64, run int, bankLimit uint64
 	case "C13":
 		rs.Tasks = 1 + r.Intn(3)
 		nops = 30 + r.Intn(60)
+		random := pickOp
+		pickOp = func() uint64 {
+			if r.Chance(2, 5) {
+				return SysRejected + uint64(r.Intn(3*len(b.rej)))
+			}
+			return random()
+		}
 	case "C17":
 		rs.Tasks = 1 + r.Intn(3)
 		nops = 30 + r.Intn(60)
@@ -427,6 +558,15 @@ func Derive(prof string, c *model.Corpus, seed uint64, run int, bankLimit uint64
 		deriveC16(rs, b, r)
 		return rs
 	}
+	// three quarters of the histories aim half of their operations at one to three definitions (see FocusBase)
+	var focus []int
+	if r.Chance(3, 4) {
+		if pool := b.focusPool(seed, bankLimit > 0); len(pool) > 0 {
+			for k := 1 + r.Intn(3); k > 0; k-- {
+				focus = append(focus, pool[r.Intn(len(pool))])
+			}
+		}
+	}
 	// history worlds: operations dealt to tasks; sometimes an operation is repeated later in the history
 	// (same arguments, different predecessors) and events are sprinkled in.
 	var recent []uint64
@@ -435,6 +575,9 @@ func Derive(prof string, c *model.Corpus, seed uint64, run int, bankLimit uint64
 		switch {
 		case len(recent) > 0 && r.Chance(1, 5):
 			st.Op = recent[r.Intn(len(recent))]
+		case len(focus) > 0 && r.Chance(1, 2):
+			st.Op = FocusBase + uint64(focus[r.Intn(len(focus))])*FocusVariants + uint64(r.Intn(FocusVariants))
+			recent = append(recent, st.Op)
 		default:
 			st.Op = pickOp()
 			recent = append(recent, st.Op)
